@@ -27,6 +27,8 @@ func (e *Engine) load(p Value, t types.Type) Value {
 		return term.Extract(w, 15, 8)
 	case *ROPtr:
 		return copyVal(p.V)
+	case *TablePtr:
+		return p.V
 	case *TableRef:
 		panic(unsupported("load of whole multiplication table entry"))
 	case nil:
@@ -67,6 +69,8 @@ func (e *Engine) store(p Value, v Value) {
 		} else {
 			p.Base[p.Off/2] = term.Concat(b, term.Extract(w, 7, 0))
 		}
+	case *TablePtr:
+		e.obligation(term.Eq(asT(v), p.V), "table-contract: value stored into "+p.Label+" equals the field product", false)
 	case *ROPtr, *TableRef:
 		panic(unsupported("store to read-only table"))
 	default:
@@ -267,6 +271,13 @@ func (e *Engine) indexAddr(x Value, idxv Value, elem types.Type, name string) Va
 		panic(unsupported(fmt.Sprintf("IndexAddr on %T", x)))
 	}
 	if idx.IsInt() {
+		if !idx.IsConst() && name != "" && isScalarType(elem) {
+			inb := term.BAnd(term.ILe(term.IntConst(0), idx), term.ILt(idx, term.IntConst(int64(len(base)))))
+			if !e.branch(inb, "bounds") {
+				e.goPanic(fmt.Sprintf("runtime error: index out of range [symbolic] with length %d", len(base)))
+			}
+			return &SymPtr{Base: base, Idx: term.Int2BV(idx, 64), Name: name}
+		}
 		idx = term.Const(64, e.concretize(idx, "index"))
 	}
 	if idx.IsConst() {
@@ -275,6 +286,16 @@ func (e *Engine) indexAddr(x Value, idxv Value, elem types.Type, name string) Va
 			e.goPanic(fmt.Sprintf("runtime error: index out of range [%d] with length %d", i, len(base)))
 		}
 		return &base[i]
+	}
+	// a symbolic index that the path condition pins to one value is concrete
+	if name != "" && len(base) > 1024 {
+		if v, ok := e.uniqueValue(idx); ok {
+			if v >= uint64(len(base)) {
+				e.goPanic(fmt.Sprintf("runtime error: index out of range [%d] with length %d", int64(v), len(base)))
+			}
+			e.note("index-pinned-by-path")
+			return &base[v]
+		}
 	}
 	// symbolic index: bounds check is a branch
 	if !e.branch(term.Ult(idx, term.Const(idx.W, uint64(len(base)))), "bounds") {
@@ -324,7 +345,7 @@ func (e *Engine) tableElem(x *TableRef, idx *term.T) Value {
 		} else {
 			w = term.Concat(j, term.Const(8, 0))
 		}
-		return &ROPtr{V: term.GFMul(x.C, w)}
+		return &TablePtr{V: term.GFMul(x.C, w), Label: fmt.Sprintf("mulTable[c].s%d[j]", 8*x.Field)}
 	case "mulTable64":
 		if !e.branch(term.Ult(idx, term.Const(idx.W, 16)), "bounds") {
 			e.goPanic("runtime error: index out of range with length 16")
@@ -334,9 +355,9 @@ func (e *Engine) tableElem(x *TableRef, idx *term.T) Value {
 		w := term.Shl(term.ZExt(j, 16), term.Const(8, uint64(sh)))
 		p := term.GFMul(x.C, w)
 		if x.Field < 4 {
-			return &ROPtr{V: term.Extract(p, 7, 0)}
+			return &TablePtr{V: term.Extract(p, 7, 0), Label: fmt.Sprintf("mulTable64[c].s%dLow[j]", sh)}
 		}
-		return &ROPtr{V: term.Extract(p, 15, 8)}
+		return &TablePtr{V: term.Extract(p, 15, 8), Label: fmt.Sprintf("mulTable64[c].s%dHigh[j]", sh)}
 	}
 	panic(unsupported("table kind " + x.Kind))
 }
